@@ -135,7 +135,14 @@ class Interp:
             nm = fn.attr if isinstance(fn, ast.Attribute) else fn.id if isinstance(fn, ast.Name) else ""
             if nm == "kron" and len(e.args) == 2:
                 return self.ev(e.args[0], st) + self.ev(e.args[1], st)
-            if nm == self.fname and len(e.args) == 2:
+            if nm == self.fname and len(e.args) + len(e.keywords) == 2:
+                kw = {k.arg: k.value for k in e.keywords}
+                pos = list(e.args)
+                a_base = pos[0] if pos else kw.get(self.base)
+                a_exp = pos[1] if len(pos) > 1 else kw.get(self.q)
+                if a_base is None or a_exp is None:
+                    raise Unknown("recursive call arguments")
+                e = ast.Call(func=e.func, args=[a_base, a_exp], keywords=[])
                 b = self.ev(e.args[0], st)
                 if not (b == Poly.const(1)):
                     raise Unknown("recursive call on another base")
@@ -208,8 +215,9 @@ class Interp:
                 return out
             # q == 1 base case
             t = s.test
-            if isinstance(t, ast.Compare) and len(t.ops) == 1 and isinstance(t.ops[0], ast.Eq) and isinstance(t.left, ast.Name) and t.left.id == q \
-                    and isinstance(t.comparators[0], ast.Constant) and t.comparators[0].value == 1 and not s.orelse:
+            if isinstance(t, ast.Compare) and len(t.ops) == 1 and isinstance(t.ops[0], ast.Eq) and not s.orelse and \
+                    ((isinstance(t.left, ast.Name) and t.left.id == q and isinstance(t.comparators[0], ast.Constant) and t.comparators[0].value == 1) or
+                     (isinstance(t.comparators[0], ast.Name) and t.comparators[0].id == q and isinstance(t.left, ast.Constant) and t.left.value == 1)):
                 base_rets = []
                 self.run_block(s.body, dict(st, **{"@q": Poly.const(1)}), base_rets)
                 for r in base_rets:
@@ -287,6 +295,14 @@ def check_power_by_squaring(fn: ast.FunctionDef):
             if isinstance(t.ops[0], ast.Gt):
                 exit_q = c
             elif isinstance(t.ops[0], ast.GtE):
+                exit_q = c - 1
+            elif isinstance(t.ops[0], ast.NotEq):
+                exit_q = c
+        if exit_q is None and isinstance(t, ast.Compare) and len(t.ops) == 1 and isinstance(t.comparators[0], ast.Name) and t.comparators[0].id == q and isinstance(t.left, ast.Constant):
+            c = t.left.value  # c < q  is  q > c
+            if isinstance(t.ops[0], ast.Lt):
+                exit_q = c
+            elif isinstance(t.ops[0], ast.LtE):
                 exit_q = c - 1
             elif isinstance(t.ops[0], ast.NotEq):
                 exit_q = c
